@@ -3564,6 +3564,33 @@ class NonTensorStack(LazyStackedTensorDict):
         iterator = self.tensordicts if self.stack_dim == 0 else self.unbind(0)
         return [td.tolist() for td in iterator]
 
+    def reshape(self, *args, **kwargs):
+        from tensordict.utils import (
+            _check_is_flatten,
+            _check_is_unflatten,
+            _get_shape_from_args,
+            _infer_size_impl,
+        )
+
+        shape = _get_shape_from_args(*args, **kwargs)
+        if any(dim < 0 for dim in shape):
+            shape = _infer_size_impl(shape, self.numel())
+        shape = torch.Size(shape)
+        if (
+            len(shape) > 1
+            and self.ndim > 1
+            and shape != self.batch_size
+            and shape.numel() == self.numel()
+            and not _check_is_flatten(shape, self.batch_size)
+            and not _check_is_unflatten(shape, self.batch_size)
+        ):
+            # Neither a flatten nor an unflatten of consecutive dims:
+            # LazyStackedTensorDict.reshape falls back on TensorDict.reshape, which
+            # reshapes tensor leaves and would return an empty TensorDict here.
+            # Go through the flat stack, which keeps every payload.
+            return super().reshape(-1).reshape(shape)
+        return super().reshape(shape)
+
     def maybe_to_stack(self):
         """Placeholder for interchangeability between stack and non-stack of non-tensors."""
         return type(self)(
